@@ -333,8 +333,9 @@ var (
 )
 
 //@ loop target=commit.(*Reader).Range index=0 props=C01,C05,C06
-func vLoopReaderRange(buf *Buffer, chunk Chunk, rangeindex int, rangeslice []header) {
+func vLoopReaderRange(buf *Buffer, chunk Chunk, rangeindex int, rangeslice []header, end uint32) {
 	n0 := len(vRangeHeaders)
+	vInvariant(int(end) == vRangeLen0) // the end of the bytes present at entry, taken once
 	vInvariant(-1 <= rangeindex && rangeindex < n0 && n0 <= len(buf.chunks) && vRangeLen0 <= len(buf.buffer) && len(buf.buffer) < 1<<30)
 	// the pass iterates over the header list as it was at entry ...
 	vInvariant(len(rangeslice) == n0 && vForall(0, n0, func(i int) bool {
@@ -364,7 +365,8 @@ func vLoopReaderRange(buf *Buffer, chunk Chunk, rangeindex int, rangeslice []hea
 		if rangeindex+1 < n0 {
 			vStep("window-ends-at-the-next-header", vRangeX1 == vRangeHeaders[rangeindex+1].Start)
 		} else {
-			vStep("last-window-ends-with-the-bytes-present", int(vRangeX1) >= vRangeLen0 && int(vRangeX1) <= vRangeLenAt)
+			// (not where the buffer ends NOW: an earlier run's rewrite may have appended a store to this very run, ★D23)
+			vStep("last-window-ends-where-the-bytes-present-at-entry-end", int(vRangeX1) == vRangeLen0)
 		}
 	}
 }
